@@ -408,7 +408,12 @@ void scen_progress(void)
 	sub = (int) usim_param("structure", rnd(S_NSUB));
 	nthreads = (int) usim_param("nthreads", 2 + rnd(3));
 	consumer = rnd(nthreads);
-	usim_set_ncpus(1 << rnd(3));
+	{
+		/* a kernel without futex(): the library's fallback must keep the read side wait-free too */
+		extern void usim_set_futex_enosys(int on);
+		usim_set_futex_enosys((int) usim_param("futex_enosys", rnd(4) == 0));
+	}
+	usim_set_ncpus(pick(ncpu_choices, 8));
 	usim_set_knob(URCU_VERIF_KNOB_MIN_PARTITION_ORDER, rnd(2));
 	usim_describe("{\"structure\":\"%s\",\"flavor\":\"%s\",\"consumer\":%d,\"threads\":[", subname[sub], F->name, consumer);
 	cds_wfcq_init(&qh[0], &qt[0]);
